@@ -171,12 +171,16 @@ fn convert_absolute_token_to_lsp_token<'a>(
 pub fn delta_line_delta_start(text: &str) -> (u32, u32) {
     let mut last_line_break_index = 0;
     let mut line_break_count = 0;
-    for (index, char) in text.chars().enumerate() {
+    for (index, char) in text.char_indices() {
         if char == '\n' {
             line_break_count += 1;
-            last_line_break_index = index as u32 + 1;
+            last_line_break_index = index + 1;
         }
     }
 
-    (line_break_count, text.len() as u32 - last_line_break_index)
+    // LSP positions count UTF-16 code units since the last line break
+    (
+        line_break_count,
+        text[last_line_break_index..].encode_utf16().count() as u32,
+    )
 }
